@@ -77,7 +77,10 @@ use self::core::{OneShotShared, STATE_SENT, STATE_TAKEN}; // Import shared state
 use std::fmt; // For Sender/Receiver Debug impls
 use std::future::Future;
 use std::pin::Pin;
+#[cfg(not(excsn_fibre_verif))]
 use std::sync::atomic::{AtomicBool, Ordering};
+#[cfg(excsn_fibre_verif)]
+use crate::internal::sync::{AtomicBool, Ordering};
 use std::sync::Arc;
 use std::task::{Context, Poll};
 
